@@ -12,23 +12,23 @@ Lemma style_cases : forall ps,
   positional ps = false \/ (positional ps = true /\ numeric ps = false) \/ numeric ps = true.
 Proof. destruct ps; cbn; tauto. Qed.
 
-Theorem all_styles : forall tab lit empty_expr ps inp, guard tab inp = true ->
-  exists ts fp sp, run tab lit empty_expr ps inp = Ok (ts, fp) /\
-                   inline_spec lit empty_expr inp = Some sp /\ inline ps ts fp = Some sp.
+Theorem all_styles : forall tab lit empty_expr proc ps inp, guard tab inp = true ->
+  exists ts fp sp, run tab lit empty_expr proc ps inp = Ok (ts, fp) /\
+                   inline_spec lit empty_expr proc inp = Some sp /\ inline ps ts fp = Some sp.
 Proof.
-  intros tab lit empty_expr ps inp G. apply guard_wf in G.
+  intros tab lit empty_expr proc ps inp G. apply guard_wf in G.
   destruct (style_cases ps) as [H|[[H1 H2]|H]].
-  - exact (named_ok tab lit empty_expr ps inp G H).
-  - destruct (pos_ok tab lit empty_expr ps inp G H1 H2) as [ts [sp [A [B C]]]]. eexists _, _, sp. eauto.
-  - exact (num_ok tab lit empty_expr ps inp G H).
+  - exact (named_ok tab lit empty_expr proc ps inp G H).
+  - destruct (pos_ok tab lit empty_expr proc ps inp G H1 H2) as [ts [sp [A [B C]]]]. eexists _, _, sp. eauto.
+  - exact (num_ok tab lit empty_expr proc ps inp G H).
 Qed.
 
-Theorem positional_sequence : forall tab lit empty_expr ps inp, guard tab inp = true ->
+Theorem positional_sequence : forall tab lit empty_expr proc ps inp, guard tab inp = true ->
   positional ps = true -> numeric ps = false ->
-  exists ts, run tab lit empty_expr ps inp = Ok (ts, FPos (flat_map (tok_vals inp) (i_toks inp))).
+  exists ts, run tab lit empty_expr proc ps inp = Ok (ts, FPos (flat_map (tok_vals proc inp) (i_toks inp))).
 Proof.
-  intros tab lit empty_expr ps inp G H1 H2. apply guard_wf in G.
-  destruct (pos_ok tab lit empty_expr ps inp G H1 H2) as [ts [sp [A _]]]. exists ts. exact A.
+  intros tab lit empty_expr proc ps inp G H1 H2. apply guard_wf in G.
+  destruct (pos_ok tab lit empty_expr proc ps inp G H1 H2) as [ts [sp [A _]]]. exists ts. exact A.
 Qed.
 
 Theorem positiontup_text_order : forall tab ps inp, guard tab inp = true ->
@@ -92,39 +92,39 @@ Definition w_esc : input :=
      i_order := [n_a_dot_b; n_a_sp_b];
      i_kind := [(n_a_dot_b, Plain); (n_a_sp_b, Plain)];
      i_values := None;
-     i_params := [(n_a_dot_b, PS 1); (n_a_sp_b, PS 2)]; i_pc := false |}.
+     i_params := [(n_a_dot_b, PS 1); (n_a_sp_b, PS 2)]; i_pc := false; i_procs := [] |}.
 (* "a.b" = 1 and "a_b" = 2: only one of them needs escaping, the assertion of _process_positional passes *)
 Definition w_esc2 : input :=
   {| i_toks := [Bind n_a_dot_b; Txt t_and; Bind n_a_us_b];
      i_order := [n_a_dot_b; n_a_us_b];
      i_kind := [(n_a_dot_b, Plain); (n_a_us_b, Plain)];
      i_values := None;
-     i_params := [(n_a_dot_b, PS 1); (n_a_us_b, PS 2)]; i_pc := false |}.
+     i_params := [(n_a_dot_b, PS 1); (n_a_us_b, PS 2)]; i_pc := false; i_procs := [] |}.
 (* an expanding bind "x" = [1; 2] next to a bind called "x_1" = 7 *)
 Definition w_exp : input :=
   {| i_toks := [Txt t_in; PC n_x; Txt t_close; Txt t_and; Bind n_x_1];
      i_order := [n_x; n_x_1];
      i_kind := [(n_x, Expand); (n_x_1, Plain)];
      i_values := None;
-     i_params := [(n_x, PL [1; 2]%Z); (n_x_1, PS 7)]; i_pc := true |}.
+     i_params := [(n_x, PL [1; 2]%Z); (n_x_1, PS 7)]; i_pc := true; i_procs := [] |}.
 (* a literal_execute bind whose name needs escaping: "a b" = 5 *)
 Definition w_lit : input :=
   {| i_toks := [Txt t_eq; PC n_a_sp_b];
      i_order := [n_a_sp_b];
      i_kind := [(n_a_sp_b, LitExec)];
      i_values := None;
-     i_params := [(n_a_sp_b, PS 5)]; i_pc := true |}.
+     i_params := [(n_a_sp_b, PS 5)]; i_pc := true; i_procs := [] |}.
 (* two binds called "p", the first ordinary, the second (the one left in compiler.binds) literal_execute *)
 Definition w_mix : input :=
   {| i_toks := [Bind [112]%N; Txt t_and; PC [112]%N];
      i_order := [[112]%N; [112]%N];
      i_kind := [([112]%N, LitExec)];
      i_values := None;
-     i_params := [([112]%N, PS 3)]; i_pc := true |}.
+     i_params := [([112]%N, PS 3)]; i_pc := true; i_procs := [] |}.
 Definition empty0 : str := [48]%N.
 
 Definition delivered (ps : style) (inp : input) : result (option (list rchar)) :=
-  match run sa_tab lit_dec empty0 ps inp with
+  match run sa_tab lit_dec empty0 run_proc ps inp with
   | Ok (ts, fp) => Ok (inline ps ts fp)
   | Raise e => Raise e
   end.
@@ -141,4 +141,5 @@ Definition ex_good : input :=
      i_order := [n_p; n_a_sp_b; n_x; n_le; n_e];
      i_kind := [(n_p, Plain); (n_a_sp_b, Plain); (n_x, Expand); (n_le, LitExec); (n_e, Expand)];
      i_values := Some [n_a_sp_b];
-     i_params := [(n_p, PS 9); (n_a_sp_b, PS 4); (n_x, PL [1; 2; 3]%Z); (n_le, PS 6); (n_e, PL [])]; i_pc := true |}.
+     i_params := [(n_p, PS 9); (n_a_sp_b, PS 4); (n_x, PL [1; 2; 3]%Z); (n_le, PS 6); (n_e, PL [])]; i_pc := true;
+     i_procs := [(n_a_sp_b, 1%N); (n_x, 2%N)] |}.
